@@ -105,7 +105,8 @@ theorem rSel_calls_ok (env : Env) (node : Nat) (ty : String) (d : Nat) (res : Li
     by_cases h1 : (Skip.skipSel env.cfg.skipTable dirs env.vars).1 = true
     · simp [rSel, h1] at hc
     by_cases h2 : (name == "__typename") = true
-    · simp [rSel, h1, h2] at hc
+    · simp only [rSel, h1, h2, Bool.false_eq_true, if_false, if_true] at hc
+      split at hc <;> simp at hc
     cases hfd : getFieldDef env.schema ty name with
     | none => simp [rSel, h1, h2, hfd] at hc
     | some fd =>
@@ -254,7 +255,11 @@ theorem rSel_noBare (env : Env) (node : Nat) (ty : String) (d : Nat) (res : List
       by_cases h1 : (Skip.skipSel env.cfg.skipTable dirs env.vars).1 = true
       · simp [rSel, h1] at he; simp [he.2]
       by_cases h2 : (name == "__typename") = true
-      · simp [rSel, h1, h2] at he; simp [he.2]
+      · simp only [rSel, h1, h2, Bool.false_eq_true, if_false, if_true] at he
+        split at he
+        · simp only [List.mem_append, List.mem_replicate, List.mem_singleton] at he
+          rcases he with he | he <;> simp [he]
+        · simp only [List.mem_replicate] at he; simp [he.2]
       cases hfd : getFieldDef env.schema ty name with
       | none =>
         simp [rSel, h1, h2, hfd] at he
